@@ -101,7 +101,7 @@ func main() {
 		{"1reload/3lines", 1, []string{"1", "2", "3"}, c.Pick(2, 3)},
 		{"2reloads/3lines", 2, []string{"1", "2", "3"}, c.Pick(2, 2)},
 		// a single line: its datum is created while the input ends and the reload arrives
-		{"1reload/1line", 1, []string{"1"}, c.Pick(3, 5)},
+		{"1reload/1line", 1, []string{"1"}, c.Pick(2, 5)},
 	}
 	if c.Thorough() {
 		scs = append(scs, sc{"1reload/4lines", 1, []string{"1", "2", "3", "x"}, 3}, sc{"1reload/2lines", 1, []string{"1", "2"}, 4})
